@@ -24,6 +24,7 @@ type Term struct {
 	Typ   types.Type
 	Src   ssa.Value     // provenance, informational
 	Owner *ssa.Function // alloc: the function whose frame owns the cell
+	Meth  *types.Func   // "method" marker of an interface call: the resolved interface method
 	key   string
 }
 
